@@ -224,6 +224,143 @@ def h_xc_orbital_entry(env):
     env.attempt("mode2_reaction_with_orbital_entry_accepted", lambda: gp.add_reactions([(m, dict(r))]))
 
 
+class _CovKernel(object):
+    """stand-in for DFTKernel on the side _compute_mol_covs uses: per-point leaf functions for the covariance with each control
+    point, the multiplicative and the additive baseline (value + gradient w.r.t. the raw features), SEP or NPOL layout"""
+
+    def __init__(self, env, mode, nctrl, n0, component="x"):
+        from .. import stubs
+        self.env, self.mode, self.component, self.Nctrl, self.n0 = env, mode, component, nctrl, n0
+        nargs = n0 if mode == "SEP" else 2 * n0
+        self.kf = [stubs.LeafFn(env, "kcov%d" % c, nargs) for c in range(nctrl)]
+        self.mf = stubs.LeafFn(env, "mbase", nargs)
+        self.af = stubs.LeafFn(env, "abase", nargs)
+        self.cov_dict, self.base_dict, self.dcov_dict, self.dbase_dict, self.rxn_cov_list = {}, {}, {}, {}, []
+
+    def _args(self, X0T, s, g):
+        if self.mode == "SEP":
+            return [X0T[s, i, g] for i in range(self.n0)]
+        return [X0T[t, i, g] for t in range(X0T.shape[0]) for i in range(self.n0)] + ([X0T[0, i, g] for i in range(self.n0)] if X0T.shape[0] == 1 else [])
+
+    def _val_grad(self, f, X0T):
+        env = self.env
+        nspin, n0, ng = X0T.shape
+        if self.mode == "SEP":
+            v, d = env.zeros((nspin, ng)), env.zeros((nspin, n0, ng))
+            for s in range(nspin):
+                for g in range(ng):
+                    a = self._args(X0T, s, g)
+                    v[s, g] = f.val(a)
+                    for i in range(n0):
+                        d[s, i, g] = f.grad(a, i)
+            return v, d
+        v, d = env.zeros((ng,)), env.zeros((nspin, n0, ng))
+        for g in range(ng):
+            a = self._args(X0T, 0, g)
+            v[g] = f.val(a)
+            for t in range(nspin):
+                for i in range(n0):
+                    d[t, i, g] = f.grad(a, t * n0 + i)
+        return v, d
+
+    def multiplicative_baseline(self, X0T):
+        return self._val_grad(self.mf, X0T)
+
+    def additive_baseline(self, X0T):
+        return self._val_grad(self.af, X0T)
+
+    def get_k(self, X0T):
+        return self.get_k_and_deriv(X0T)[0]
+
+    def get_k_and_deriv(self, X0T):
+        ks, ds = zip(*[self._val_grad(f, X0T) for f in self.kf])
+        stack = (lambda xs: np.stack([np.asarray(x, dtype=object) for x in xs])) if self.env.sym else np.stack
+        k, dk = stack(ks), stack(ds)
+        if self.env.sym:
+            k, dk = sym.as_sarr(k), sym.as_sarr(dk)
+        return k, dk
+
+
+def h_mol_covs(env, mode, nspin, deriv, ng=2, n0=2, nctrl=2):
+    """_compute_mol_covs: cov_dict[mol] = sum_g w_g sum_s k_c(x_sg) m(x_sg) (SEP) / sum_g w_g k_c(x_g) m(x_g) (NPOL) and
+    base_dict[mol] = sum_g w_g a(x_g), with the documented low-density mask (value and derivative alike); the orbital-derivative
+    entries are the directional derivatives of the same quantities along the stored feature derivatives; reference data are stored"""
+    tr, st = env.m.train, env.m.settings
+    kern = _CovKernel(env, mode, nctrl, n0)
+    settings = object.__new__(st.FeatureSettings)
+
+    class _IdNorm(object):
+        def get_normalized_feature_vector(self, x):
+            return x
+
+        def get_derivative_of_normed_features(self, x, dx):
+            return dx
+    settings.normalizers = _IdNorm()
+    gp = tr.MOLGP([kern], settings)
+    desc = env.arr("desc", (nspin, n0, ng), lo="-2", hi="2")
+    # densities: point 0 symbolic around the 1e-6 mask threshold (the solver forks), point 1 well above it
+    for s in range(nspin):
+        env.assume(desc[s, 0, 0] >= env.const(0))
+        env.assume(desc[s, 0, 1] >= env.const(Fraction(1, 1000)))
+    wt = env.arr("wt", (ng,), "pos", lo="1/8", hi="4")
+    val = env.arr("val", (ng,), lo="-2", hi="2")
+    etot, exc = env.par("e_tot_orig", lo="-8", hi="8"), env.par("exc_orig", lo="-8", hi="8")
+    data = dict(wt=wt, desc=desc, val=val, e_tot_orig=etot, exc_orig=exc, nspin=nspin)
+    orbs = {}
+    if deriv:
+        dd = env.arr("ddesc", (n0, ng), lo="-2", hi="2")
+        dval = env.par("dval", lo="-2", hi="2")
+        # stored format: {occ: {num: (spin, array)}} for spin-polarised data, {occ: {num: array}} otherwise
+        data["ddesc"] = {"O": {"0": ((nspin - 1, dd) if nspin == 2 else dd)}}
+        data["dval"] = {"O": {"0": dval}}
+        orbs[("O", 0)] = (nspin - 1 if nspin == 2 else 0, dd)
+    gp.load_data = lambda ddir, mol_id, get_orb_deriv: dict(data)
+    import contextlib
+    import io
+    with contextlib.redirect_stdout(io.StringIO()):
+        ok, _ = env.attempt("compute_mol_covs_returns", lambda: gp._compute_mol_covs({}, ["M"], kern, get_orb_deriv=deriv, save_refs=True))
+    if not ok:
+        return
+    thr = env.const(Fraction(1, 10 ** 6))
+
+    def masked(s, g):
+        d = desc[s, 0, g] if mode == "SEP" else sum((desc[t, 0, g] for t in range(nspin)), env.const(0))
+        return bool(d < thr)
+    cov = [env.const(0) for _ in range(nctrl)]
+    base = env.const(0)
+    for g in range(ng):
+        if mode == "SEP":
+            for s in range(nspin):
+                if masked(s, g):
+                    continue
+                a = kern._args(desc, s, g)
+                for c in range(nctrl):
+                    cov[c] = cov[c] + wt[g] * kern.kf[c].val(a) * kern.mf.val(a)
+                base = base + wt[g] * kern.af.val(a)
+        else:
+            if masked(0, g):
+                continue
+            a = kern._args(desc, 0, g)
+            for c in range(nctrl):
+                cov[c] = cov[c] + wt[g] * kern.kf[c].val(a) * kern.mf.val(a)
+            base = base + wt[g] * kern.af.val(a)
+    for c in range(nctrl):
+        env.equal("cov_%d" % c, kern.cov_dict["M"][c] + env.const(0), cov[c])
+    env.equal("baseline", kern.base_dict["M"] + env.const(0), base)
+    env.equal("exx_reference", gp.exx_ref_dict["M"], sum((val[g] * wt[g] for g in range(ng)), env.const(0)))
+    env.equal("ks_baseline", gp.ks_baseline_dict["M"], etot - exc)
+    if deriv:
+        key = ("O", 0)
+        env.check("orbital_keys", set(kern.dcov_dict["M"].keys()) == {key} and set(kern.dbase_dict["M"].keys()) == {key}, str(list(kern.dcov_dict["M"].keys())))
+        s_o, dd = orbs[key]
+        wrts = [("desc", (s_o, i, g)) for i in range(n0) for g in range(ng)]
+        tang = [dd[i, g] for i in range(n0) for g in range(ng)]
+        for c in range(nctrl):
+            env.jvp("dcov_%d_is_directional_derivative" % c, cov[c], wrts, tang, kern.dcov_dict["M"][key][c])
+        env.jvp("dbaseline_is_directional_derivative", base, wrts, tang, kern.dbase_dict["M"][key])
+        env.equal("dexx_reference", gp.dexx_ref_dict["M"][key], dval)
+
+
 def _fit(env, kernels_spec, names, nctrl, order=None):
     tr, gp, kernels, vals = _setup(env, kernels_spec, nctrl)
     rl = [_rxn(env, n, vals) for n in names]
@@ -328,6 +465,8 @@ def tasks(tier):
     out.append(Task("labels/x+c/rel_noise", h_labels, dict(kernels_spec=("x", "c"), names=("xc_rel", "x_orb")), mods="train"))
     out.append(Task("labels/x+c/repeated_systems", h_labels, dict(kernels_spec=("x", "c"), names=("x_dup", "xc_dup")), mods="train"))
     out.append(Task("labels/xc_orbital_entry", h_xc_orbital_entry, {}, mods="train"))
+    for mode, nspin, deriv in [("SEP", 1, False), ("SEP", 2, True), ("NPOL", 2, True), ("NPOL", 1, False)]:
+        out.append(Task("mol_covs/%s/nspin%d/%s" % (mode, nspin, "orbital_derivs" if deriv else "plain"), h_mol_covs, dict(mode=mode, nspin=nspin, deriv=deriv), mods="train", max_paths=64))
     out.append(Task("fit/x/2rxn", h_fit, dict(kernels_spec=("x",), names=("x_plain", "x_orb")), mods="train", timeout_ms=60000))
     out.append(Task("fit/x+c/2rxn/nctrl1", h_fit, dict(kernels_spec=("x", "c"), names=("x_plain", "xc_plain"), nctrl=1), mods="train", timeout_ms=60000))
     if tier == "thorough":
@@ -352,10 +491,12 @@ def prepare(tier):
 META = dict(
     explanation="MOLGP.add_reactions/reset_reactions/fit/compute_likelihood executed symbolically on duck-typed kernels with symbolic state; the oracle never inverts: "
                 "the solved weights are substituted into the documented linear equations and the polynomial normal form / z3 decide the identities",
-    functions=["ciderpress/models/train.py: MOLGP.__init__, reset_reactions, add_reactions, fit, compute_likelihood"],
+    functions=["ciderpress/models/train.py: MOLGP.__init__, reset_reactions, add_reactions, fit, compute_likelihood, _compute_mol_covs (load_data stubbed with symbolic arrays), strk_to_tuplek"],
     bounds=dict(control_points="1-2 per kernel", kernels="1-2 (x, c, xc components)", reactions="1-3 with 1-2 systems each, plain and orbital-derivative entries, modes 0 and 2",
                 options="noise / noise_factor / noise_rel_factor / weight / default unit", epsilon="numerical_epsilon symbolic >= 0 (the documented formula is the eps = 0 instance)"),
     stubs=["DFTKernel: duck-typed stand-in with exactly the attributes MOLGP reads/writes; Kmm symbolic with positive leading minors (assumed)", "scipy.linalg.cholesky / cho_solve, numpy.linalg.slogdet: their definitions over exact reals (n <= 2)"],
-    assumptions=["NOT covered: _compute_mol_covs / store_mol_covs (file loading and grid integration), control-point selection (_reduce_npts, pivoted Cholesky), optimize_cov_and_noise_, MOLGP2, "
+    assumptions=["_compute_mol_covs: 2 grid points (one block: the 10000-point blocking loop is not split), 2 raw features, 2 control points, SEP and NPOL, with and without one orbital-derivative entry; "
+                 "kernel covariance, multiplicative and additive baselines are leaf functions with consistent gradients; normalisers are the identity",
+                 "NOT covered: load_data / store_mol_covs file handling, control-point selection (_reduce_npts, pivoted Cholesky), optimize_cov_and_noise_, MOLGP2, "
                  "the x argument of fit/compute_likelihood other than the default", "compute_likelihood is compared at sigma_min = 0 (for other values the code evaluates the likelihood of a rescaled noise model by design)"],
 )
